@@ -86,7 +86,10 @@ OnInvoke(c, m, e) ==
     IN  [m1 EXCEPT !.outs = @ \cup {[i |-> e.i, out |-> e.out, k |-> e.k]}]
 
 PMonStep(c, m, e) ==
-    CASE e.e = "callow"  -> OnAllow(c, m, e)
+    CASE e.e = "cprobe"  ->
+            \* C08: every call is over and recovery_timeout_s has elapsed since: the next call is admitted
+            V(m, e.allowed, "C08:next-call-rejected-after-recovery-timeout")
+      [] e.e = "callow"  -> OnAllow(c, m, e)
       [] e.e = "crec"    -> OnRec(c, m, e)
       [] e.e = "cinvoke" -> OnInvoke(c, m, e)
       [] OTHER -> m
